@@ -30,7 +30,7 @@ func (p *Parser) parseExpression() (ast.Expression, error) {
 		return nil, goerrors.RecursionDepthLimitError(
 			p.depth,
 			MaxRecursionDepth,
-			models.Location{Line: 0, Column: 0},
+			p.currentLocation(),
 			"",
 		)
 	}
@@ -240,7 +240,7 @@ func (p *Parser) parseComparisonExpression() (ast.Expression, error) {
 			if err != nil {
 				return nil, goerrors.InvalidSyntaxError(
 					fmt.Sprintf("failed to parse IN value: %v", err),
-					models.Location{Line: 0, Column: 0},
+					p.currentLocation(),
 					"",
 				).WithCause(err)
 			}
@@ -269,7 +269,7 @@ func (p *Parser) parseComparisonExpression() (ast.Expression, error) {
 		return nil, goerrors.ExpectedTokenError(
 			"BETWEEN, LIKE, or IN",
 			"NOT",
-			models.Location{Line: 0, Column: 0},
+			p.currentLocation(),
 			"",
 		)
 	}
@@ -319,7 +319,7 @@ func (p *Parser) parseComparisonExpression() (ast.Expression, error) {
 			if err != nil {
 				return nil, goerrors.InvalidSyntaxError(
 					fmt.Sprintf("failed to parse %s subquery: %v", quantifier, err),
-					models.Location{Line: 0, Column: 0},
+					p.currentLocation(),
 					"",
 				).WithCause(err)
 			}
@@ -773,7 +773,7 @@ func (p *Parser) parsePrimaryExpression() (ast.Expression, error) {
 			if err != nil {
 				return nil, goerrors.InvalidSyntaxError(
 					fmt.Sprintf("failed to parse subquery: %v", err),
-					models.Location{Line: 0, Column: 0},
+					p.currentLocation(),
 					"",
 				).WithCause(err)
 			}
@@ -844,7 +844,7 @@ func (p *Parser) parsePrimaryExpression() (ast.Expression, error) {
 			return nil, goerrors.RecursionDepthLimitError(
 				p.depth,
 				MaxRecursionDepth,
-				models.Location{Line: 0, Column: 0},
+				p.currentLocation(),
 				"",
 			)
 		}
@@ -874,7 +874,7 @@ func (p *Parser) parsePrimaryExpression() (ast.Expression, error) {
 		if err != nil {
 			return nil, goerrors.InvalidSyntaxError(
 				fmt.Sprintf("failed to parse EXISTS subquery: %v", err),
-				models.Location{Line: 0, Column: 0},
+				p.currentLocation(),
 				"",
 			).WithCause(err)
 		}
@@ -905,7 +905,7 @@ func (p *Parser) parsePrimaryExpression() (ast.Expression, error) {
 			if err != nil {
 				return nil, goerrors.InvalidSyntaxError(
 					fmt.Sprintf("failed to parse NOT EXISTS subquery: %v", err),
-					models.Location{Line: 0, Column: 0},
+					p.currentLocation(),
 					"",
 				).WithCause(err)
 			}
@@ -945,7 +945,7 @@ func (p *Parser) parsePrimaryExpression() (ast.Expression, error) {
 	return nil, goerrors.UnexpectedTokenError(
 		p.currentToken.Type.String(),
 		p.currentToken.Literal,
-		models.Location{Line: 0, Column: 0},
+		p.currentLocation(),
 		"",
 	)
 }
@@ -970,7 +970,7 @@ func (p *Parser) parseCaseExpression() (*ast.CaseExpression, error) {
 		if err != nil {
 			return nil, goerrors.InvalidSyntaxError(
 				fmt.Sprintf("failed to parse CASE value: %v", err),
-				models.Location{Line: 0, Column: 0},
+				p.currentLocation(),
 				"",
 			).WithCause(err)
 		}
@@ -986,7 +986,7 @@ func (p *Parser) parseCaseExpression() (*ast.CaseExpression, error) {
 		if err != nil {
 			return nil, goerrors.InvalidSyntaxError(
 				fmt.Sprintf("failed to parse WHEN condition: %v", err),
-				models.Location{Line: 0, Column: 0},
+				p.currentLocation(),
 				"",
 			).WithCause(err)
 		}
@@ -1002,7 +1002,7 @@ func (p *Parser) parseCaseExpression() (*ast.CaseExpression, error) {
 		if err != nil {
 			return nil, goerrors.InvalidSyntaxError(
 				fmt.Sprintf("failed to parse THEN result: %v", err),
-				models.Location{Line: 0, Column: 0},
+				p.currentLocation(),
 				"",
 			).WithCause(err)
 		}
@@ -1017,7 +1017,7 @@ func (p *Parser) parseCaseExpression() (*ast.CaseExpression, error) {
 	if len(caseExpr.WhenClauses) == 0 {
 		return nil, goerrors.InvalidSyntaxError(
 			"CASE expression requires at least one WHEN clause",
-			models.Location{Line: 0, Column: 0},
+			p.currentLocation(),
 			"",
 		)
 	}
@@ -1030,7 +1030,7 @@ func (p *Parser) parseCaseExpression() (*ast.CaseExpression, error) {
 		if err != nil {
 			return nil, goerrors.InvalidSyntaxError(
 				fmt.Sprintf("failed to parse ELSE result: %v", err),
-				models.Location{Line: 0, Column: 0},
+				p.currentLocation(),
 				"",
 			).WithCause(err)
 		}
@@ -1269,7 +1269,7 @@ func (p *Parser) parseSubquery() (ast.Statement, error) {
 	return nil, goerrors.ExpectedTokenError(
 		"SELECT or WITH",
 		p.currentToken.Type.String(),
-		models.Location{Line: 0, Column: 0},
+		p.currentLocation(),
 		"",
 	)
 }
